@@ -27,7 +27,7 @@ def Loc.postBody : Loc → Bool
 
 /-- inside `handle_error` of an `except` clause or in interpreter finalisation -/
 def Loc.failing : Loc → Bool
-  | .herr _ _ | .fin _ _ => true
+  | .raised1 | .herr _ _ | .fin _ _ => true
   | _ => false
 
 /-- locations before the lock is taken -/
@@ -37,7 +37,7 @@ def Loc.early : Loc → Bool
 
 /-- where a process that was signalled inside the body can be -/
 def Loc.afterBody : Loc → Bool
-  | .body _ | .herr _ _ | .fin _ _ => true
+  | .body _ | .raised1 | .herr _ _ | .fin _ _ => true
   | _ => false
 
 def Loc.atRmPid : Loc → Bool
@@ -642,13 +642,13 @@ theorem noClean_reach {cfg : Cfg} {done : Bool} {failed : Option Nat} {s : St} (
     intro s h
     exact ih _ (act_local cfg NoClean (by intro o b; simp [NoClean, newProc]) (step_noClean cfg) (deliver_noClean cfg) s a h)
 
-/-- a process interrupted inside the body by a handled signal, running alone: 10 steps to its death -/
+/-- a process interrupted inside the body by a handled signal, running alone: 11 steps to its death -/
 theorem solo_signal (cfg : Cfg) (i : Nat) (sh : Shared) (p : Proc) (k c : Nat)
     (hd : p.dead = none) (hl : p.loc = .body k) (hh : p.hnd = some (hsFirst cfg, c)) (hlock : sh.lock = some (.run i))
     (hdone : sh.done = false) (hreg : p.reg = true) (hcl : p.cleaned = false) :
-    (soloIter cfg i 10 (sh, p)).1.failed = some 1 ∧ (soloIter cfg i 10 (sh, p)).1.done = false ∧
-    (soloIter cfg i 10 (sh, p)).1.lock = none ∧ (soloIter cfg i 10 (sh, p)).1.pid = none ∧
-    (soloIter cfg i 10 (sh, p)).2.dead = some (.code 1) := by
+    (soloIter cfg i 11 (sh, p)).1.failed = some 1 ∧ (soloIter cfg i 11 (sh, p)).1.done = false ∧
+    (soloIter cfg i 11 (sh, p)).1.lock = none ∧ (soloIter cfg i 11 (sh, p)).1.pid = none ∧
+    (soloIter cfg i 11 (sh, p)).2.dead = some (.code 1) := by
   cases hmf : cfg.markerFirst <;> simp only [hsFirst, hmf, if_true, if_false, Bool.false_eq_true] at hh <;>
     simp [soloIter, stepProc, handlerStep, mainStep, afterHandler, finStart, release, markEpoch, Loc.inTry,
       hsFirst, hsAfterWrite, hsAfterClean, hmf, hd, hl, hh, hlock, hdone, hreg, hcl]
